@@ -290,6 +290,166 @@ spec('C20', run=run_c20, search=search_with(run_c20),
      assumptions=[])
 
 
+# ------------------------------------------------------------------------------------------------
+# C05: table coherence; registry correspondence
+
+
+def lean_dump(ctx):
+    """the generated table in registry-dump form (cached on the generated files' content)"""
+    import hashlib
+    h = hashlib.sha256()
+    gen = os.path.join(LEAN, 'Uom', 'Gen')
+    for root, _d, files in sorted(os.walk(gen)):
+        for f in sorted(files):
+            with open(os.path.join(root, f), 'rb') as fh:
+                h.update(fh.read())
+    for f in ('DumpTable.lean', 'Uom/Model/Coef.lean', 'Uom/Model/SoftFloat.lean', 'Uom/Model/Table.lean'):
+        with open(os.path.join(LEAN, f), 'rb') as fh:
+            h.update(fh.read())
+    path = os.path.join(VERIF, 'build', 'dump_lean_%s.txt' % h.hexdigest()[:16])
+    if not os.path.exists(path):
+        rc, out = sh(['lake', 'build', 'Uom.Gen.Table', 'Uom.Model.Coef', 'Uom.Model.Num'], cwd=LEAN)
+        rc, out = sh('lake env lean --run DumpTable.lean > %s.tmp' % path, cwd=LEAN)
+        if rc != 0:
+            ctx.problems.append(Problem('proof-broken', 'DumpTable.lean failed', out[-1500:]))
+            return None
+        os.replace(path + '.tmp', path)
+    return path
+
+
+def registry_diff(ctx, want_kinds=('quantity', 'unit', 'base')):
+    """exhaustive comparison of the run-time registry / type-level conversion data with the generated table"""
+    if not cargo_build(ctx, 'fl', ['reg']):
+        return None
+    lp = lean_dump(ctx)
+    if lp is None:
+        return None
+    rc, out = sh(bin_path('reg', False, 'fl'))
+    if rc != 0:
+        ctx.problems.append(Problem('harness-broken', 'reg dump failed', out[-800:]))
+        return None
+    rust = out.splitlines()
+    with open(lp, encoding='utf-8') as f:
+        lean = f.read().splitlines()
+    n_mismatch = 0
+    for l in rust:
+        if l.startswith('mismatch '):
+            n_mismatch += 1
+            ctx.problems.append(Problem('property-fails', 'run-time registry differs from the declared units: ' + l, line=l, failing_input=True,
+                                        cmd=bin_path('reg', False, 'fl'), tag='registry'))
+    rust = [l for l in rust if not l.startswith('mismatch ')]
+    key = lambda l: ' '.join(l.split(' ')[:3])
+    rd = {key(l): l for l in rust}
+    ld = {key(l): l for l in lean}
+    diffs = []
+    for k in list(rd) + [k for k in ld if k not in rd]:
+        if rd.get(k) != ld.get(k):
+            diffs.append((k, rd.get(k), ld.get(k)))
+    for k, a, b in diffs[:40]:
+        ctx.problems.append(Problem('model-differs', 'registry/table dump differs at ' + k, detail='impl:  %s\nmodel: %s' % (a, b), line=a or b,
+                                    cmd=bin_path('reg', False, 'fl'), tag='registry-dump'))
+    ctx.extra['evaluations'] = ctx.extra.get('evaluations', 0) + len(rust)
+    ctx.extra['distinct_nontrivial'] = ctx.extra.get('distinct_nontrivial', 0) + len(set(rust))
+    ctx.extra.setdefault('samples', []).extend([rust[1], rust[len(rust) // 2]])
+    ctx.extra['registry_rows_compared'] = len(rust)
+    ctx.extra['registry_rows_differing'] = len(diffs)
+    ctx.extra['exhaustive'] = True
+    return rust
+
+
+def run_c05(ctx, tier=None, seed=None):
+    from main import load_known
+    registry_diff(ctx)
+    t = load_table()
+    comp = t.get('compose', {})
+    ctx.extra['composable_units'] = comp.get('composable')
+    ctx.extra['primitive_units'] = comp.get('primitive')
+    ctx.extra['table_obligations'] = 0
+    kf = load_known()
+    for f in kf['findings']:
+        if f['property'] == 'C05' and f['id'] not in [k['id'] for k in ctx.known]:
+            ctx.known.append(f)
+
+
+def search_c05(ctx):
+    """a table obligation broke: evaluate the per-row checkers outside the kernel (exact fractions) to
+    name the failing unit, and replay it against the implementation's published coefficient"""
+    import sys
+    from fractions import Fraction as F
+    from main import load_known
+    sys.path.insert(0, os.path.join(VERIF, 'translate'))
+    import translate as T
+    t = load_table()
+    kf = load_known()
+    dev = {}
+    misn = set()
+    for f in kf['findings']:
+        k = f.get('key', {})
+        if k.get('kind') == 'coefficient-deviation':
+            for u in k['units']:
+                dev[(u['module'], u['unit'])] = F(u['bound'])
+        if k.get('kind') == 'misnamed-units':
+            misn |= set(tuple(x) for x in k['units'])
+    reg = {}
+    if cargo_build(ctx, 'fl', ['reg']):
+        rc, out = sh(bin_path('reg', False, 'fl'))
+        for l in out.splitlines():
+            p = l.split(' ')
+            if p[0] == 'unit':
+                reg[(p[1], p[3])] = p[7]
+    prefixes = t['prefixes']
+
+    def coef(qi, ui):
+        return F(*t['quantities'][qi]['units'][ui]['coef_exact'])
+
+    def val(c):
+        v = F(1)
+        for gi, g in enumerate(c):
+            for (qi, ui, p, form) in [tuple(x[:4]) for x in g]:
+                k = {0: 1, 1: 2, 2: 3, 3: 2, 4: 3}[form]
+                x = coef(qi, ui)
+                if p >= 0:
+                    x *= T.expr_exact(prefixes[t['prefix_order'][p]], prefixes)
+                v *= x ** (k if gi == 0 else -k)
+        return v
+
+    for m, u in [tuple(x) for x in t.get('compose', {}).get('misnamed', [])]:
+        if (m, u) not in misn:
+            ctx.problems.append(Problem('property-fails', 'unit %s::%s: its identifier reads as a composition of another dimension than the quantity has' % (m, u),
+                                        line='unit %s %s' % (m, u), failing_input=True, tag='misnamed'))
+    for qi, ui, cs in t.get('_certs', []):
+        q = t['quantities'][qi]
+        name = q['units'][ui]['name']
+        c = coef(qi, ui)
+        if c == 0:
+            continue
+        best = min(abs(val(x) / c - 1) for x in cs)
+        bound = dev.get((q['module'], name), F(1, 2 ** 50))
+        if best > bound:
+            ctx.problems.append(Problem(
+                'property-fails',
+                'unit %s::%s: declared coefficient %s (f64 bits published by the implementation: %s) deviates from its composition by %.3e (allowed %.3e)' % (
+                    q['module'], name, float(c), reg.get((q['module'], name), '?'), float(best), float(bound)),
+                line='unit %s %s coef=%s/%s composition=%s' % (q['module'], name, c.numerator, c.denominator, float(val(cs[0]))),
+                failing_input=True, cmd=bin_path('reg', False, 'fl'), tag='composition'))
+    # base units / coherent units / anchors are small: name them by direct evaluation
+    for b in t['system']['base']:
+        for q in t['quantities']:
+            if q['module'] == b['name']:
+                for u in q['units']:
+                    if u['name'] == b['unit'] and (F(*u['coef_exact']) != 1 or u['cons'] is not None):
+                        ctx.problems.append(Problem('property-fails', 'base unit %s::%s does not have coefficient exactly 1 / no offset' % (b['name'], b['unit']),
+                                                    line='unit %s %s' % (b['name'], b['unit']), failing_input=True, tag='base-unit'))
+
+
+spec('C05', run=run_c05, search=search_c05,
+     rule='exhaustive: every declared unit (2 537 rows) and quantity (115 rows): run-time registry order, Debug name, three labels, f64 and f32 coefficient/constant bits, '
+          'exponents and kind compared with the table the theorems are about; every row is a distinct case',
+     trusted_base=['completeness of the name-derivation finder (translate/compose.py): it decides which units are composable; the evidence reports the counts',
+                   'the hand-written anchor lists in Props/C05.lean'],
+     assumptions=['“composable” means: the identifier splits into ≥ 2 components (prefix, unit names, per/square/cubic/squared/cubed) naming declared units'])
+
+
 def replay(ctx, spec_, path):
     with open(path, encoding='utf-8') as f:
         body = json.load(f)
